@@ -1,14 +1,16 @@
 import MetapypeModel.Props.C01
 import MetapypeModel.Gen.Facts
 import MetapypeModel.Gen.NameWitness
+import MetapypeModel.Lemmas.Restore
 /-
   C17 — suggested insertion index is schema-legal and restores validity when possible.
 
   Proved for every spec, every existing child sequence and every candidate: bounds, refusal,
   rank order, and the allowed-child query (one direction in general, the other for the whole
-  regenerated table through kernel-checked witnesses and C01).  The "restores validity whenever
-  possible" clause is NOT proved here: it is covered by the exhaustive small-scope comparison of
-  the check against the declarative language (a test, labelled as such in the evidence).
+  regenerated table through kernel-checked witnesses and C01), and "restores validity whenever
+  possible" (`C17_restores`, for every spec of the class `wfTop` of C01, every existing child
+  sequence of any length and every candidate; `C17_restores_table` instantiates it on the
+  regenerated table).
 -/
 namespace Metapype
 
@@ -159,6 +161,54 @@ theorem C17_allowed_iff_table (r : Rule) (hr : r ∈ Gen.rules) (c : String)
     exact (C01_accept_iff r'.children (C01_table_wf r' hr') "x" (by decide) _ _).mp hacc
   · rintro ⟨w, hl, hc⟩
     exact C17_allowed_of_occurs _ _ c w hl hc
+
+/-- whenever SOME insertion position makes the child sequence a word of the rule's language, the suggested
+    position is one that does (and the query neither refuses nor fails).  `insAt c j xs` is `list.insert(j, c)`. -/
+theorem C17_restores (M : Bool) (s : Spec) (hw : wfTop s = true) (xs : List String) (c : String) (j : Nat)
+    (hj : j ≤ xs.length) (hl : Lang true M s (insAt c j xs)) :
+    ∃ i, childInsertIndex s xs c = .ok i ∧ i ≤ xs.length ∧ Lang true M s (insAt c i xs) := by
+  obtain ⟨u, v, hxs, hins⟩ := insAt_split c j xs hj
+  rw [hins] at hl
+  have hsub := Lang_names_sub true M s _ hl
+  have hc : c ∈ s.names := hsub c (by simp)
+  have hxsub : ∀ x ∈ xs, x ∈ s.names := by
+    intro x hx
+    rw [hxs] at hx
+    rcases List.mem_append.mp hx with hx | hx
+    · exact hsub x (List.mem_append_left _ hx)
+    · exact hsub x (List.mem_append_right _ (List.mem_cons_of_mem _ hx))
+  obtain ⟨r, hr⟩ := idxOf_some_of_mem s.names c hc
+  obtain ⟨i, h1, h2, h3⟩ := aux_insBy s.names c r hr xs 0 hxsub
+  refine ⟨i, by simp only [childInsertIndex, hr]; simpa using h1, h2, ?_⟩
+  rw [h3, hxs]
+  simp only [wfTop, Bool.and_eq_true, decide_eq_true_eq] at hw
+  have hp := rankIn_pairwise s.names hw.1
+  cases s with
+  | leaf _ _ _ => simp at hw
+  | seq items =>
+    simp only [Lang] at hl ⊢
+    exact restore_items (rankIn _) M items hw.2 hp u v c hl
+  | choice alts mn mx => exact restore_item (rankIn _) M _ hw.2 hp u v c hl
+
+/-- the same for every rule of the regenerated table (each is in the class, `C01_table_wf`) -/
+theorem C17_restores_table (r : Rule) (hr : r ∈ Gen.rules) (xs : List String) (c : String) (j : Nat)
+    (hj : j ≤ xs.length) (hl : Lang true (isMixed Gen.mixedRules r) r.children (insAt c j xs)) :
+    ∃ i, childInsertIndex r.children xs c = .ok i ∧ i ≤ xs.length ∧
+      Lang true (isMixed Gen.mixedRules r) r.children (insAt c i xs) :=
+  C17_restores _ r.children (C01_table_wf r hr) xs c j hj hl
+
+/-- … and through C01: if some position makes the real validator accept, the suggested one does -/
+theorem C17_restores_validator (r : Rule) (hr : r ∈ Gen.rules) (n : String) (hn : n ≠ "metadata")
+    (xs : List String) (c : String) (j : Nat) (hj : j ≤ xs.length)
+    (hacc : validateChildren n (isMixed Gen.mixedRules r) r.children (insAt c j xs) = []) :
+    ∃ i, childInsertIndex r.children xs c = .ok i ∧
+      validateChildren n (isMixed Gen.mixedRules r) r.children (insAt c i xs) = [] := by
+  have hwf := C01_table_wf r hr
+  obtain ⟨i, h1, _, h3⟩ := C17_restores_table r hr xs c j hj ((C01_accept_iff r.children hwf n hn _ _).mp hacc)
+  exact ⟨i, h1, (C01_accept_iff r.children hwf n hn _ _).mpr h3⟩
+
+/-- non-vacuity of the hypothesis: inserting givenName at position 0 is valid, and so is the suggested position 1 -/
+example : insAt "givenName" 1 ["salutation", "surName"] = ["salutation", "givenName", "surName"] := by decide
 
 /-- non-vacuity -/
 example : childInsertIndex (.seq [.leaf "salutation" 0 none, .leaf "givenName" 0 none, .leaf "surName" 1 (some 1)])
